@@ -40,8 +40,24 @@ CLAIMS = {
          'and the copy-flag identity clauses (copy=True: argument untouched, fresh result; copy=False: the result is the argument). threshold_proportional and the weight_conversion '
          'dispatch are bounded only (all matrices n<=3 over {0,1,2}, p grid incl. every .5 boundary, both flags).',
          PROOF_NOTE, 'pyvc + z3 on the real source for 5 utilities; bounded stand-in for threshold_proportional / weight_conversion', '5/C17'),
+ 'C13': ('proof',
+         'Static frame analysis (engine/pyframe): for every public function of the bct package (155, enumerated from the source, not from a list) a flow-sensitive may-alias '
+         'analysis with modular callee summaries generates one frame obligation per mutation site (subscript stores, in-place operators, np.fill_diagonal/put/place/copyto, '
+         '.sort/.fill/..., out=, calls to bct functions that mutate a parameter): the written object may not alias a caller-supplied array; utilities with a copy flag are analysed '
+         'under copy=True and copy=False. All obligations are discharged on every run. A dynamic snapshot cross-check (bounded: 143 of 152 callable public functions, inputs with '
+         'non-zero diagonal, signed entries, arbitrary labels; also after exceptions) supplies failing inputs.',
+         'trusted: the fresh/view/mutating classification of numpy calls in engine/pyframe/frame.py; numpy/scipy functions not listed there do not write to their arguments; no mutation through eval/exec or C extensions',
+         'static may-alias frame analysis of the real source, obligation per mutation site; runtime snapshot comparison as bounded cross-check', '5/C13'),
+ 'C05': ('proof',
+         'Static effect obligations (engine/pyframe/effects.py) over every seed-accepting function found in the source (38) and everything they call inside the package: E1 no use of '
+         'np.random.* / random.* outside get_rng, E2 every draw is a method call on the local generator bound to get_rng(seed), E3 nested seed-accepting calls receive that generator object '
+         '(raw seed only from a pure forwarder), E4 no other nondeterminism source. From E1-E4 and get_rng\'s documented cases the result is a function of the arguments and the generator\'s '
+         'stream only. get_rng\'s own behaviour and the end-to-end claims (same seed same result, int seed = RandomState(int), global state bit-identical, unseeded = global stream) are '
+         'cross-checked dynamically on all 38 functions (bounded).',
+         'trusted: syntactic effect analysis; numpy/scipy routines called by bct draw no random numbers themselves; get_rng decided by the bounded tier only',
+         'static effect obligations per seed-accepting function on the real source; dynamic reproducibility cross-check (bounded)', '5/C05'),
 }
-for _pid in ['C02', 'C03', 'C04', 'C05', 'C07', 'C08', 'C09', 'C10', 'C12', 'C13', 'C14', 'C15', 'C16', 'C18', 'C19', 'C20']:
+for _pid in ['C02', 'C03', 'C04', 'C07', 'C08', 'C09', 'C10', 'C12', 'C14', 'C15', 'C16', 'C18', 'C19', 'C20']:
     CLAIMS[_pid] = ('exploration', BND + 'See DESIGN.md section 5/%s for the clauses and why the deductive tier does not (yet) reach them.' % _pid,
                     BND_NOTE % _pid, 'runtime contracts on the real code over exhaustive small scopes (bounded stand-in)', '5/' + _pid)
 NOT_YET = 'check not built yet in this round (see DESIGN.md section 10); no claim is made'
@@ -78,7 +94,7 @@ def main():
         },
         'engines': [
             {'name': 'pyvc', 'path': 'engine/pyvc', 'serves_properties': ['C01', 'C06', 'C11', 'C17'], 'kind_free_text': 'AST -> verification conditions -> z3/cvc5 over the real source, sidecar contracts (deductive, unbounded)'},
-            {'name': 'pyframe', 'path': 'engine/pyframe', 'serves_properties': [], 'kind_free_text': 'static frame (mutation/alias) and effect (RNG) obligations over the real AST'},
+            {'name': 'pyframe', 'path': 'engine/pyframe', 'serves_properties': ['C05', 'C13'], 'kind_free_text': 'static frame (mutation/alias) and effect (RNG) obligations over the real AST'},
             {'name': 'lean', 'path': 'engine/lean', 'serves_properties': [], 'kind_free_text': 'Lean 4 + Mathlib lemma library for finite sums/modularity identities'},
             {'name': 'weave', 'path': 'engine/weave.py', 'serves_properties': sorted(CLAIMS), 'kind_free_text': 'bounded stand-in: the same contracts executed on the real functions over exhaustive small scopes with a scripted RandomState'},
         ],
